@@ -129,7 +129,7 @@ pub trait Round: Copy {
     /// assuming |numerator / denominator| < 1. Return the adjustment.
     #[inline]
     fn round_ratio(integer: &IBig, num: IBig, den: &IBig) -> Rounding {
-        assert!(!den.is_zero() && num.abs_cmp(den).is_le());
+        assert!(!den.is_zero() && num.abs_cmp(den).is_lt());
 
         if num.is_zero() {
             return Rounding::NoOp;
